@@ -83,14 +83,18 @@ def run(facts, res):
     # ------------------------------------------------------------------ Q4
     rf = facts.body("melda::Melda::refresh")
     if rf is not None:
-        ins = [(bi, t) for bi, t in rf.calls() if t.callee is not None and t.callee.name == "insert" and t.args and "deltas" in field_path(arg_term(rf, t, 0))[0]]
+        ins = [(mb_, bi, t) for mb_ in [rf] + facts.closures_of(rf.path) for bi, t in mb_.calls()
+               if t.callee is not None and t.callee.name == "insert" and t.args and "deltas" in field_path(arg_term(mb_, t, 0))[0]]
         ok = bool(ins)
-        for bi, t in ins:
+        for mb_, bi, t in ins:
             g = False
-            kv = {x[1] for x in walk(arg_term(rf, t, 1, 12)) if x[0] == "var"}
-            for l in lits_of(rf, bi, facts):
+            # roots of the key: named locals, and (in the closures of an adaptor chain) the chain's element = parameter 2
+            def roots(t_, clos):
+                return {(x[0], x[1]) for x in walk(t_) if x[0] == "var" or (clos and x[0] == "param" and x[1] == 2)}
+            kv = roots(arg_term(mb_, t, 1, 12), mb_.kind == "closure")
+            for l in lits_of(mb_, bi, facts):
                 if l.kind == "call" and callee_name(l.term) == "contains_key" and l.truth is False and "deltas" in field_path(l.term[2][0])[0] and \
-                        ({x[1] for x in walk(l.term[2][1]) if x[0] == "var"} & kv):
+                        (roots(l.term[2][1], mb_.kind == "closure") & kv):
                     g = True
             ok = ok and g
         res.instance("Q4", "refresh inserts a block only if the block map does not contain its id: %s" % ok, rf.loc())
